@@ -139,7 +139,7 @@ func runC06(c *Ctx) {
 	for _, w := range writers {
 		fn := w.SSA
 		instrs(fn, func(in ssa.Instruction) {
-			what, _ := writerMutation(c, in)
+			what, mx := writerMutation(c, in)
 			if what == "" {
 				return
 			}
@@ -158,6 +158,24 @@ func runC06(c *Ctx) {
 			if sites := mutatingHelperSites(c, fn); sites != nil {
 				for _, site := range sites {
 					k2 := c.short(topFunc(site.Parent()).String()) + " › " + what + " (in " + c.short(fn.String()) + ")"
+					// the record the helper writes is its parameter: a call that hands it a record still under
+					// construction (not yet in the map) mutates nothing readers could be waiting for
+					if mx != nil && mx.Op == "field" && len(mx.Args) == 1 {
+						if prm, isP := strip(mx.Args[0]).V.(*ssa.Parameter); isP && prm.Parent() == fn {
+							fresh := false
+							for i, p := range fn.Params {
+								if p == prm && i < len(site.Common().Args) {
+									if a := strip(c.E(site.Common().Args[i])); a != nil && a.Op == "complit" {
+										fresh = true
+									}
+								}
+							}
+							if fresh {
+								c.OK("C06.P1-must-publish", k2+" (record under construction)", site.Pos(), "exempt: the record handed to the helper is not yet in the map")
+								continue
+							}
+						}
+					}
 					if path := unpublishedExit(c, site); path != nil {
 						c.Bad("C06.P1-must-publish", k2, site.Pos(), "a path from this mutation reaches a function exit without publishing a snapshot: the change is marked as seen and never shown to readers", path...)
 					} else {
@@ -201,7 +219,7 @@ func runC06(c *Ctx) {
 
 	// ---- P2 newest wins ---------------------------------------------------------------
 	pcacheNewestWins(c, "C06.P2-newest-wins")
-	c.Floor("C06.P2-newest-wins", 8)
+	c.Floor("C06.P2-newest-wins", 4) // (the writers may share one comparing helper)
 	// update stamp set with the record in the refresh path
 	for _, w := range writers {
 		instrs(w.SSA, func(in ssa.Instruction) {
